@@ -88,6 +88,8 @@ class Engine:
         self.deadline = deadline
         self.numeric_first = 0
         self.fast_real = False
+        self.xcheck_limit = 0     # number of discharged obligations to dump as SMT-LIB2 for a second solver (thorough tier)
+        self.xcheck = []
         self._varcache = {}
         self.stats = dict(paths=0, aborted=0, forks=0, queries=0, sat=0, unsat=0,
                           unknown=0, solver_s=0.0, obligations=0, discharged=0,
@@ -336,6 +338,8 @@ class Engine:
         if r == z3.unsat:
             self.stats["discharged"] += 1
             st[1] += 1
+            if len(self.xcheck) < self.xcheck_limit and st[1] <= 2:
+                self._dump(list(self.solver.assertions()) + [z3.Not(c)], label)
             return
         if r == z3.sat:
             self._violation(label, model, key, detail)
@@ -524,8 +528,20 @@ class Engine:
             self.stats["queries"] += 1
             self.stats[str(r)] += 1
             if r == z3.unsat:
+                if len(self.xcheck) < self.xcheck_limit and len(self.xcheck) % 3 == 0:
+                    self._dump(fs, "sliced")
                 return True
         return False
+
+    def _dump(self, formulas, label):
+        try:
+            sv = z3.Solver()
+            sv.add(*formulas)
+            txt = sv.to_smt2()
+            if len(txt) < 400000:
+                self.xcheck.append((label, "(set-logic ALL)\n" + txt))
+        except z3.Z3Exception:
+            pass
 
     def _decide_nlsat(self, goal):
         """purify divisions / UF applications, then decide with qfnra-nlsat"""
